@@ -354,6 +354,12 @@ int main(int argc, char **argv)
             Trial<ST::QuinticSplineND<2>, 2, ST::QuadInvTimeMap, ST::IdentitySpatialMap<2>, false>::run(c, "conc_o5d2_default", 5, n);
         if (c.cellSelected("conc_o7d3_user"))
             Trial<ST::SepticSplineND<3>, 3, UserTimeMap, UserSpatialMapD<3>, true>::run(c, "conc_o7d3_user", 7, n);
+        // coefficient blocks larger than 32 doubles (septic DIM>=5, quintic DIM>=6): storage an implementation might treat
+        // differently from small fixed-size blocks
+        if (c.cellSelected("conc_o7d5_default"))
+            Trial<ST::SepticSplineND<5>, 5, ST::QuadInvTimeMap, ST::IdentitySpatialMap<5>, false>::run(c, "conc_o7d5_default", 7, n);
+        if (c.cellSelected("conc_o5d6_default"))
+            Trial<ST::QuinticSplineND<6>, 6, ST::QuadInvTimeMap, ST::IdentitySpatialMap<6>, false>::run(c, "conc_o5d6_default", 5, n);
         if (c.cellSelected("conc_o3d1_user"))
             Trial<ST::CubicSplineND<1>, 1, UserTimeMap, UserSpatialMapD<1>, true>::run(c, "conc_o3d1_user", 3, n);
     }
